@@ -100,31 +100,11 @@ def run(ctx):
     states += sr.distinct
     trans += sr.generated
     ssum = svcfam.run_rpc(ctx, sfiles, 1500 if ctx.quick() else 0, None if ctx.quick() else 20000)
-    # the caller against every sequence of well-formed and malformed reply frames (RpcReply.tla)
-    from vlib import tlc as _tlc
-    from vlib.common import Broken as _Broken
-    rwd = ctx.scratch("rpcreply")
-    rs = _tlc.run_tlc(rwd, "RpcReply.tla", "RpcReply_skipbad.cfg", timeout=300, workers=2, out_name="skipbad.out")
-    if rs.violated != "OkOnlyIfClean":
-        raise _Broken("RpcReply_skipbad: a caller that passes over malformed frames does not break OkOnlyIfClean: the model is vacuous")
-    nfr = 3 if ctx.quick() else 4
-    rr = _tlc.run_tlc(rwd, "RpcReply.tla", "RpcReply_%d.cfg" % nfr, timeout=900, workers=4, out_name="reply%d.out" % nfr, heap="4g")
-    _tlc.require_ok(rr, "RpcReply/%d" % nfr)
-    states += rr.distinct
-    pr = ctx.run([ctx.go_build("mreply"), "-in", rr.outfile, "-seed", str(ctx.seed)], timeout=1500)
-    if pr.returncode != 0:
-        raise _Broken("mreply failed: %s" % pr.stderr[-2000:])
-    rsum = None
-    for line in pr.stdout.splitlines():
-        d = json.loads(line)
-        if "summary" in d:
-            rsum = d["summary"]
-        elif d["sig"] == "harness":
-            raise _Broken("mreply: " + d["detail"])
-        else:
-            ctx.violation("reply:" + d["sig"], "%s | frames: %s" % (d["detail"], d["script"]), d)
-    if not rsum or (rsum["scripts"] == 0 and rsum["mismatches"] == 0):
-        raise _Broken("mreply played no scripts")
+    # the caller against every sequence of reply frames, the server against every sequence of request / stream frames
+    from vlib import rpcfam
+    rr, rsum, nfr = rpcfam.run_reply(ctx)
+    qr, qsum, nq = rpcfam.run_request(ctx)
+    states += rr.distinct + qr.distinct
     ctx.coverage = {
         "reply_frames": {"model": "RpcReply.tla", "sequences_replayed": rsum["scripts"], "max_frames": nfr,
                          "rule": "every sequence of up to %d reply frames over {stream message, end marker, OK response with result, application "
@@ -134,6 +114,14 @@ def run(ctx):
                                  "observations must be the model's: OK only for an OK response with nothing malformed before it and with that "
                                  "call's own result, a malformed frame is an rpc error that sticks, a channel that ends without response is "
                                  "not OK; 8 calls share the connection, a well-formed call next to them stays unaffected" % nfr},
+        "request_frames": {"model": "RpcRequest.tla", "sequences_replayed": qsum["scripts"], "max_frames": nq, "healthy_calls": qsum["healthy_calls"],
+                           "rule": "a wire-level mpx peer opens a call with a request, bytes that are no message, a stream message, a response or a "
+                                   "structurally invalid value, then writes stream messages, end markers, a request again, a response, a message of an "
+                                   "undefined type, bytes that do not parse, or closes; the handler runs exactly once and only for a request, its "
+                                   "Receive calls return what the model says (messages in order, a failed Receive for bytes that do not parse and then "
+                                   "on with the stream, a failure that sticks for a message of another type, end for the marker or the close), the peer "
+                                   "gets the handler's response unless it closed the call; after every sequence two streaming calls of a well-behaved "
+                                   "client on its own connection are served as if nothing had happened"},
         "call_scripts": {"model": "SvcCall.tla (refines Rpc.tla, checked by TLC)", "executed": ssum["scripts"], "generated": ssum["of"],
                          "with_lost_connection": ssum.get("lost", 0),
                          "steps": ssum["steps"], "by_kind": ssum["by_kind"],
